@@ -61,6 +61,20 @@ pub fn family(tier: Tier, f: &mut dyn FnMut(G)) {
     }
 }
 
+/// value sets with more than ten literals in one word (two-digit literal ids)
+fn big_sets(f: &mut dyn FnMut(G)) {
+    let mut vs: Vec<String> = vec!["a".into(), "abc".into(), "abcd".into()];
+    for i in 1..=9 {
+        vs.push(format!("b{i}"));
+    }
+    let alt = E::Alt(vs.iter().map(|v| E::lit(v)).collect());
+    f(call(E::Seq(vec![E::Word(vec![E::lit("--level="), alt.clone()]), E::Alt(vec![E::lit("foo"), E::lit("bar")])])));
+    let mut ws: Vec<String> = (0..8).map(|i| format!("k{i}x")).collect();
+    ws.extend(["z".to_string(), "zy".to_string(), "zyx".to_string(), "zyxw".to_string()]);
+    let alt2 = E::Alt(ws.iter().rev().map(|v| E::lit(v)).collect());
+    f(call(E::Seq(vec![E::Word(vec![E::lit("p:"), alt2, E::lit(";"), E::Alt(vec![E::lit("u"), E::lit("uv")])]), E::lit("t")])));
+}
+
 pub fn run(tier: Tier) -> Report {
     let mut rep = Report::new("C12", tier, "model_checking");
     let (defs, pr) = std_probes();
@@ -71,6 +85,7 @@ pub fn run(tier: Tier) -> Report {
             grammars.push(g)
         }
     });
+    big_sets(&mut |g| grammars.push(g));
     let total = grammars.len();
     let scratch = Scratch::new("c12");
     crate::traces::EMPTY_WB_STRIDE.with(|s| s.set(tier.pick(5, 1)));
@@ -112,7 +127,7 @@ pub fn run(tier: Tier) -> Report {
     rep.cov(
         "rule",
         J::s(format!(
-            "exhaustive: every value set of size 2..{} from the prefix lattice {:?} that contains a prefix pair, as `cmd P(v1|..|vn) t` and `cmd P(v1|..|vn),(w1|w2) t` with P in {:?}, with and without descriptions and through a definition; model BFS of depth 2 over the per-grammar alphabet (every value, every item-boundary prefix, foreign words), at every state every prefix of every value (+1 character) as cursor word, both COMP_WORDBREAKS modes where the prefix holds a break character; replayed in real bash; oracle R6/R7 with all tokenisations (a value typed completely may or may not be offered again).",
+            "exhaustive: every value set of size 2..{} from the prefix lattice {:?} that contains a prefix pair, as `cmd P(v1|..|vn) t` and `cmd P(v1|..|vn),(w1|w2) t` with P in {:?}, with and without descriptions and through a definition; two value sets of 12 literals in one word (two-digit literal ids); model BFS of depth 2 over the per-grammar alphabet (every value, every item-boundary prefix, foreign words), at every state every prefix of every value (+1 character) as cursor word, both COMP_WORDBREAKS modes where the prefix holds a break character; replayed in real bash; oracle R6/R7 with all tokenisations (a value typed completely may or may not be offered again).",
             tier.pick(3, 4),
             &LATTICE[..tier.pick(5, LATTICE.len())],
             if tier == Tier::Quick { vec!["--o="] } else { vec!["--o=", "x", ""] }
